@@ -634,6 +634,37 @@ def before_items(kind):
     return {'x': 'caller-x'} if kind == 'dict' else {'x': 'caller-x', 'y': 'lower-y'}
 
 
+def bindings_survive_lazy_evaluation(col):
+    """a lazy value made by an earlier step (an Iter pipeline) is CONSUMED while a later step of the same chain is evaluated - by the
+    value spec of a binder, by a callable, by a reduction: bindings made by that later step, and by the steps before it, are visible to
+    the steps after it all the same ("visible to the later steps of the same tuple or Pipe")"""
+    from glom import Iter, Invoke, Sum, Fold
+    inc = lambda x: x + 1
+    cases = [
+        ('binder value drains the Iter of the previous step', lambda: (Iter().map(inc), S(total=Invoke(sum).specs(T)), S.total), 9),
+        ('the same in a Pipe', lambda: Pipe(Iter().map(inc), S(total=Invoke(sum).specs(T)), S.total), 9),
+        ('binder value takes one item', lambda: (Iter().map(inc), S(first=Invoke(next).specs(T)), S.first), 2),
+        ('earlier binding, then a draining binder', lambda: (S(a=Val('A')), Iter().map(inc), S(n=Invoke(list).specs(T)), {'a': S.a, 'n': S.n}), {'a': 'A', 'n': [2, 3, 4]}),
+        ('draining binder, then a later binder', lambda: (Iter(inc), S(n=Invoke(list).specs(T)), S(b=Val('B')), {'b': S.b, 'n': S.n}), {'b': 'B', 'n': [2, 3, 4]}),
+        ('A.name after a callable drained the Iter', lambda: (Iter().map(inc), list, A.lst, S(k=Val('K')), {'k': S.k, 'lst': S.lst}), {'k': 'K', 'lst': [2, 3, 4]}),
+        ('reduction drains inside a binder value', lambda: (Iter().filter(lambda x: x != 2), S(s=Sum()), S.s), 4),
+        ('Iter kept in the scope, drained two steps later', lambda: (Iter().map(inc), A.it, Val(0), S(got=Invoke(list).specs(S.it)), S.got), [2, 3, 4]),
+        ('dict value drains, next step reads', lambda: (S(z=Val('Z')), Iter().map(inc), {'items': list}, S(seen=T['items']), {'z': S.z, 'seen': S.seen}),
+         {'z': 'Z', 'seen': [2, 3, 4]}),
+    ]
+    for desc, mk, want in cases:
+        spec = mk()
+        for n in (1, 2):
+            got = call(G, [1, 2, 3], spec)
+            col.case(('lazy-evaluation', desc, n), True)
+            col.count('reader_observations')
+            col.count('chains_with_a_lazy_value_consumed_by_a_later_step')
+            if not got.ok or got.value != want:
+                col.violation('C07/binding-lost-when-a-lazy-value-is-consumed-in-a-later-step', '%s: %s on [1, 2, 3] (evaluation #%d): %r, expected %r'
+                              % (desc, short(spec, 200), n, got, want), None)
+                break
+
+
 def literal_bindings_do_not_outlive_the_call(col):
     """S(name=<container literal>) binds a container built for THIS call: mutating it in place through the scope (A.name[key],
     S.name.append(..)) is invisible to the next evaluation of the same spec object, and to sibling evaluations of the step"""
@@ -945,6 +976,7 @@ def run(ctx):
             systematic(col, rng, tracer)
             spec_glom_entry(col)
             glommer_scope_is_copied(col)
+            bindings_survive_lazy_evaluation(col)
             matchdict_two_keys(col, rng)
             literal_bindings_do_not_outlive_the_call(col)
             deep_shadowing(col)
